@@ -22,9 +22,11 @@ THEOREMS = {
     'C15': ['C15.C15_prefix', 'C15.C15_full', 'C15.C15_recover', 'C15.C15_crash_anywhere'],
     'C16': ['C16.C16_no_lost_wakeup', 'C16.C16_progress', 'C16.C16_lost_wakeup_as_found'],
     'C17': ['C17.C17_at_most_one', 'C17.C17_first_rw_gets_it', 'C17.C17_not_stored_after'],
-    'C18': ['C18.C18_roundtrip_quoted', 'C18.C18_roundtrip_number', 'C18.C18_modutf7', 'C18.C18_encode_ascii', 'C18.C18_framing', 'C18.C18_astring_spelling'],
+    'C18': ['C18.C18_roundtrip_quoted', 'C18.C18_roundtrip_number', 'C18.C18_modutf7', 'C18.C18_encode_ascii', 'C18.C18_framing', 'C18.C18_astring_spelling',
+            'C18.C18_zone_roundtrip', 'C18.C18_zone_canonical', 'C18.C18_seqset_roundtrip'],
     'C19': ['C19.C19_gate', 'C19.C19_wf', 'C19.C19_put_get', 'C19.C19_put_frame', 'C19.C19_list', 'C19.C19_delete_active',
-            'C19.C19_delete', 'C19.C19_rename', 'C19.C19_isolation'],
+            'C19.C19_delete', 'C19.C19_rename', 'C19.C19_isolation',
+            'C19.C19_single_put_get', 'C19.C19_single_refused_unchanged', 'C19.C19_single_reads', 'C19.C19_single_no_ghosts', 'C19.single_delete_active_as_found'],
     'C20': ['C20.C20_exclusion', 'C20.C20_cancel_safe', 'C20.C20_file_exclusion', 'C20.C20_file_released',
             'C20.C20_no_deadlock', 'C20.C20_terminates',
             'C20.C20_thread_exclusion', 'C20.C20_thread_no_deadlock', 'C20.C20_thread_terminates'],
